@@ -24,6 +24,7 @@ from ..selftest import Twin
 from ._engine import CL, CL_REL, RUNNER, command_constructions, param, published_event_class
 
 EXPLANATION = __doc__.split("\n\n", 1)[1]
+TECHNIQUE = 'static analysis: per-iteration dominance of timer servicing (back-edge), timeout scheduling def-use, cancel-reducer effect containment, cleanup structure'
 TRUSTED = ["CPython ast", "asyncio task cancellation"]
 
 
